@@ -6,7 +6,7 @@ package c17
 //    ballast plus one runtime.GC() per case (see check) makes the runtime reuse
 //    the same warm span instead of faulting in fresh pages, which on a loaded
 //    machine otherwise stretches scans beyond the scanner's 1 s ticker period.
-//    GOMAXPROCS is capped at 4 per shard (still truly parallel) to keep the
+//    GOMAXPROCS is capped at 2..4 per shard (still truly parallel) to keep the
 //    shards from oversubscribing the machine.
 //
 // 2. Replay of race findings.  The driver's replay path runs the binary
@@ -37,6 +37,7 @@ import (
 	"os/exec"
 	"regexp"
 	"runtime"
+	"strconv"
 	"syscall"
 	"testing"
 
@@ -48,7 +49,7 @@ import (
 
 const (
 	replayAttempts = 5
-	avoidReruns    = 3
+	avoidReruns    = 8
 )
 
 var ballast []byte
@@ -64,7 +65,7 @@ func runChild(boost bool, extraEnv ...string) (out []byte, rc int) {
 		if prio, err := syscall.Getpriority(syscall.PRIO_PROCESS, 0); err == nil {
 			defer syscall.Setpriority(syscall.PRIO_PROCESS, 0, 20-prio) // raw syscall returns 20-nice
 		}
-		syscall.Setpriority(syscall.PRIO_PROCESS, 0, -10)
+		syscall.Setpriority(syscall.PRIO_PROCESS, 0, -20)
 	}
 	cmd := exec.Command(os.Args[0], os.Args[1:]...)
 	cmd.Env = append(os.Environ(), extraEnv...)
@@ -115,8 +116,18 @@ func onlyTickerRace(out []byte) bool {
 }
 
 func TestMain(m *testing.M) {
-	if os.Getenv("GOMAXPROCS") == "" && runtime.GOMAXPROCS(0) > 4 {
-		runtime.GOMAXPROCS(4)
+	if os.Getenv("GOMAXPROCS") == "" {
+		// 2..4 Ps per shard (always truly parallel), fewer when many shards share the machine
+		procs := 4
+		if ns, err := strconv.Atoi(os.Getenv("VERIF_NSHARDS")); err == nil && ns > 0 && 2*runtime.NumCPU()/ns < procs {
+			procs = 2 * runtime.NumCPU() / ns
+		}
+		if procs < 2 {
+			procs = 2
+		}
+		if runtime.GOMAXPROCS(0) > procs {
+			runtime.GOMAXPROCS(procs)
+		}
 	}
 	isChild := os.Getenv("VERIF_C17_CHILD") != ""
 	path := os.Getenv("VERIF_REPLAY")
